@@ -7,7 +7,9 @@ import SynKitModel.BatchCache
   outcome, what the property demands (`exp`), the cache keys in FIFO order, held and pinned ids.
 * `batch.fit {cache_on, cache_max, pin, dedupe, alloc, batch, rules, inv, table}` — `BatchReactor.fit`
   with `f` given as a table `[[c, r, inv, [codes…]], …]`; also the map of `single`.
-* `batch.dedupe {xs}`; `cluster.fit {items: [[attr, cls, cls1], …], batch_size}`.
+* `batch.dedupe {xs}`; `batchcluster.fit {items: [[attr, cls, cls1], …], batch_size,
+  templates?: [[attr, cls, cls1, label], …]}` (labels, and the returned template library when
+  initial templates are given).
 -/
 open Lean SynKit.BatchCache
 namespace Driver.BatchCache
@@ -111,8 +113,25 @@ def handle : Driver.Handler := fun cmd j =>
     let attr : (Nat × Nat × Nat) → Nat := fun it => it.1
     let iso : (Nat × Nat × Nat) → (Nat × Nat × Nat) → Bool := fun a b => a.2.1 == b.2.1
     let isoOne : (Nat × Nat × Nat) → (Nat × Nat × Nat) → Bool := fun a b => a.2.2 == b.2.2
-    match fitClasses attr iso isoOne items [] bs with
-    | .ok ls => pure (Json.mkObj [("ok", toJson ls)])
+    -- optional initial templates `[[attr, cls, cls1, label], …]` (absent = the empty library)
+    let ts : List ((Nat × Nat × Nat) × Nat) ← match j.getObjVal? "templates" with
+      | .ok (.arr a) => a.toList.mapM fun row => do
+          let r ← (fromJson? row : Except String (Array Nat))
+          if r.size ≠ 4 then throw "template"
+          pure ((r[0]!, r[1]!, r[2]!), r[3]!)
+      | _ => pure []
+    -- the template library `fit` returns on the `cluster` branches (initial templates given)
+    let tsOut : Json :=
+      if ts.isEmpty then Json.null else
+      let batches : Option (List (List (Nat × Nat × Nat))) := match bs with
+        | none => some [items]
+        | some k => if k < 1 then none else some (chunks k.toNat items)
+      match batches with
+      | none => Json.null
+      | some [b] => toJson ((clusterBatch attr iso ts b).2.map fun t => [t.1.1, t.1.2.1, t.1.2.2, t.2])
+      | some bsl => toJson ((clusterBatches attr iso ts bsl).2.map fun t => [t.1.1, t.1.2.1, t.1.2.2, t.2])
+    match fitClasses attr iso isoOne items ts bs with
+    | .ok ls => pure (Json.mkObj [("ok", toJson ls), ("templates", tsOut)])
     | .error e => pure (Json.mkObj [("err", clErrName e)])
   | _ => none
 
